@@ -37,43 +37,60 @@ def split_frames(data: bytes, magic: bytes = MAINNET_MAGIC):
 IP = b"::ffff:127.0.0.1"     # the repo keeps the 16 address bytes as ASCII text
 
 
-def version_fields(k: int) -> dict:
-    """the k-th distinct version message of the harness (all fields depend on k)"""
-    ua = b"/verif:%d/" % k
-    return {
+def user_agent(k: int, variant: str = "plain") -> bytes:
+    """plain: a short ASCII user agent; empty: none at all (user_agent_bytes = 0, legal: the field is a var_str);
+    long: a 200-byte ASCII one (still a one-byte compact size)"""
+    if variant == "empty":
+        return b""
+    if variant == "long":
+        return (b"/Satoshi:25.0.0(verif-%d; " % k + b"x" * 200)[:199] + b"/"
+    return b"/verif:%d/" % k
+
+
+def version_fields(k: int, variant: str = "plain") -> dict:
+    """the k-th distinct version message of the harness (all fields depend on k), as the dict the node keeps"""
+    ua = user_agent(k, variant)
+    f = {
         "protocol_version": 70015 + (k % 3), "services": 1 + 8 * (k % 2), "timestamp": 1700000000 + k,
         "addr_recv_services": k % 5, "addr_recv_ip_addr": IP.decode("ascii"), "addr_recv_port": 8333 + k % 100,
         "addr_trans_services": 1 + 8 * (k % 2), "addr_trans_ip_addr": IP.decode("ascii"),
         "addr_trans_port": 18333 + k % 100, "nonce": (0x1122334455667788 * (k + 1)) % 2 ** 64,
         "user_agent_bytes": len(ua), "user_agent": ua, "start_height": 100 * k + 7, "relay": bool(k % 2),
     }
+    if not ua:
+        del f["user_agent"]          # the node's parser records no user agent when there is none
+    return f
 
 
-def version_payload(k: int) -> bytes:
-    f = version_fields(k)
-    assert f["user_agent_bytes"] < 253
+def version_payload(k: int, variant: str = "plain") -> bytes:
+    f = version_fields(k, variant)
+    ua = user_agent(k, variant)
+    assert len(ua) < 253
     return (f["protocol_version"].to_bytes(4, "little") + f["services"].to_bytes(8, "little")
             + f["timestamp"].to_bytes(8, "little")
             + f["addr_recv_services"].to_bytes(8, "little") + IP + f["addr_recv_port"].to_bytes(2, "big")
             + f["addr_trans_services"].to_bytes(8, "little") + IP + f["addr_trans_port"].to_bytes(2, "big")
-            + f["nonce"].to_bytes(8, "little") + bytes([f["user_agent_bytes"]]) + f["user_agent"]
+            + f["nonce"].to_bytes(8, "little") + bytes([len(ua)]) + ua
             + f["start_height"].to_bytes(4, "little") + (b"\x01" if f["relay"] else b"\x00"))
 
 
 def parse_version(raw: bytes) -> dict:
-    """independent parse of the payloads built above (user agent shorter than 253 bytes)"""
+    """independent parse of the payloads built above (user agent of 0..252 bytes)"""
     n = raw[80]
-    assert 0 < n < 253 and len(raw) == 81 + n + 5, "not a harness version payload"
-    return {
+    assert n < 253 and len(raw) == 81 + n + 5, "not a harness version payload"
+    f = {
         "protocol_version": int.from_bytes(raw[0:4], "little"), "services": int.from_bytes(raw[4:12], "little"),
         "timestamp": int.from_bytes(raw[12:20], "little"),
         "addr_recv_services": int.from_bytes(raw[20:28], "little"), "addr_recv_ip_addr": raw[28:44].decode("ascii"),
         "addr_recv_port": int.from_bytes(raw[44:46], "big"),
         "addr_trans_services": int.from_bytes(raw[46:54], "little"), "addr_trans_ip_addr": raw[54:70].decode("ascii"),
         "addr_trans_port": int.from_bytes(raw[70:72], "big"), "nonce": int.from_bytes(raw[72:80], "little"),
-        "user_agent_bytes": n, "user_agent": raw[81:81 + n],
+        "user_agent_bytes": n,
         "start_height": int.from_bytes(raw[81 + n:85 + n], "little"), "relay": raw[85 + n] == 1,
     }
+    if n:
+        f["user_agent"] = raw[81:81 + n]
+    return f
 
 
 INV_TYPES = {1: "MSG_TX", 2: "MSG_BLOCK", 3: "MSG_FILTERED_BLOCK", 4: "MSG_CMPCT_BLOCK",
